@@ -267,6 +267,23 @@ func (vc *funcVC) inputTerms() []string {
 	return out
 }
 
+// tryLoopClause translates a loop clause; a clause that no longer fits the code (e.g. it mentions a local that was
+// renamed or removed) is dropped with a note instead of aborting: whatever depended on it then fails as an
+// ordinary undischarged obligation.
+func (vc *funcVC) tryLoopClause(tr *trans, cl *clause) (f string, ok bool) {
+	defer func() {
+		if r := recover(); r != nil {
+			if te, isTE := r.(transError); isTE {
+				vc.c.note(fmt.Sprintf("loop clause at %s:%d does not apply to the current code and was dropped: %s", relPath(cl.File), cl.Line, string(te)))
+				f, ok = "true", false
+				return
+			}
+			panic(r)
+		}
+	}()
+	return vc.trClause(tr, cl), true
+}
+
 func (vc *funcVC) trClause(tr *trans, cl *clause) (f string) {
 	defer func() {
 		if r := recover(); r != nil {
@@ -815,7 +832,10 @@ func (fr *frame) backEdge(li *loopInfo, b, h *ssa.BasicBlock) {
 	}
 	for k, cl := range li.invs {
 		tr := fr.loopTrans(li, st, phiVals)
-		f := vc.trClause(tr, cl)
+		f, okc := vc.tryLoopClause(tr, cl)
+		if !okc {
+			continue
+		}
 		vc.addObl(&obligation{Name: fmt.Sprintf("inv/loop%d.%d/preserve@b%d%s", li.ordinal, k+1, fr.backOrdinal(li, b), sfx), Kind: "inv-preserve", Goal: and(ec, not(f)),
 			Pos: fmt.Sprintf("%s:%d", relPath(cl.File), cl.Line), Clause: cl.Src, Inputs: vc.inputTerms()})
 	}
@@ -908,7 +928,10 @@ func (fr *frame) enterLoop(li *loopInfo, h *ssa.BasicBlock, pre *state, enter st
 	// invariant on entry
 	for k, cl := range li.invs {
 		tr := fr.loopTrans(li, pre, entryVals)
-		f := vc.trClause(tr, cl)
+		f, okc := vc.tryLoopClause(tr, cl)
+		if !okc {
+			continue
+		}
 		vc.addObl(&obligation{Name: fmt.Sprintf("inv/loop%d.%d/entry", li.ordinal, k+1), Kind: "inv-entry", Goal: and(enter, not(f)),
 			Pos: fmt.Sprintf("%s:%d", relPath(cl.File), cl.Line), Clause: cl.Src})
 	}
@@ -969,7 +992,9 @@ func (fr *frame) enterLoop(li *loopInfo, h *ssa.BasicBlock, pre *state, enter st
 	li.hstate = hst.clone()
 	for _, cl := range li.invs {
 		tr := fr.loopTrans(li, hst, nil)
-		c.assume(implies(hc, vc.trClause(tr, cl)))
+		if f, okc := vc.tryLoopClause(tr, cl); okc {
+			c.assume(implies(hc, f))
+		}
 	}
 	for _, cl := range li.decs {
 		tr := fr.loopTrans(li, hst, nil)
